@@ -15,6 +15,7 @@ import Cosi.Driver.DepDB
 import Cosi.Driver.Selector
 import Cosi.Driver.Alias
 import Cosi.Driver.Access
+import Cosi.Driver.Persist
 
 open Cosi
 
@@ -36,7 +37,8 @@ def engines : List (String × Engine) := [
   ("pipeline", ⟨Driver.Pipeline.St, Driver.Pipeline.init, Driver.Pipeline.stepLine⟩),
   ("ctrl", ⟨Driver.Ctrl.St, Driver.Ctrl.init, Driver.Ctrl.stepLine⟩),
   ("alias", ⟨Driver.Alias.St, Driver.Alias.init, Driver.Alias.stepLine⟩),
-  ("access", ⟨Driver.Access.St, Driver.Access.init, Driver.Access.stepLine⟩)
+  ("access", ⟨Driver.Access.St, Driver.Access.init, Driver.Access.stepLine⟩),
+  ("persist", ⟨Driver.Persist.St, Driver.Persist.init, Driver.Persist.stepLine⟩)
 ]
 
 partial def loop (e : Engine) (spec : Bool) (inp : IO.FS.Stream) (out : IO.FS.Stream) (st : e.σ) : IO Unit := do
